@@ -1,12 +1,12 @@
 package main
 
 import (
-	"regexp"
 	"fmt"
 	"go/ast"
 	"go/token"
 	"go/types"
 	"reflect"
+	"regexp"
 	"sort"
 	"strings"
 
